@@ -253,6 +253,22 @@ func judgeC12(c ReqCase) *Fail {
 		st.inc("C12:ambiguous")
 		return nil
 	}
+	// run-level aggregate as in C11 / C13: random alternative order, distinct weights, an outcome that depends on the
+	// order - is it ever anything but the listing-order walk? (apart for requests whose criteria set a bias changed)
+	if matched && randomOrder && !tiedWeights && len(snap.Cons) >= 3 && len(snap.Cons) <= 6 {
+		if same, sensitive := c12ListingOrder(snap, w, levels, consReq, r); sensitive {
+			_ = same
+			name := "C12agg-order"
+			var declared []string
+			for _, cv := range v.Criteria {
+				declared = append(declared, cv.Id)
+			}
+			if fmt.Sprint(snap.critIds()) != fmt.Sprint(declared) {
+				name = "C12agg-order-after-bias"
+			}
+			aggCollect(name, c.Req, 300)
+		}
+	}
 	if !matched {
 		kind := "exact"
 		if randomOrder || tiedWeights {
@@ -563,6 +579,54 @@ func genC13(t *rapid.T) ReqCase {
 	return mkReqCase(genHeuristicReq(t, o))
 }
 
+// c12ListingOrder: does the listing-order walk reproduce the response, and does any order fail to (distinct weights)?
+func c12ListingOrder(snap *Snap, w map[string]float64, levels []map[string]float64, consReq []SnapAlt, r *Resp) (same, sensitive bool) {
+	criteriaOrders(snap.Crit, w, func(corder []CritView) bool {
+		left, elim, _ := refAspect(corder, levels, consReq, newMargin())
+		same = matchAspect(left, elim, r) == ""
+		permutations(len(consReq), func(p []int) bool {
+			order := make([]SnapAlt, len(p))
+			for i, x := range p {
+				order[i] = consReq[x]
+			}
+			l2, e2, _ := refAspect(corder, levels, order, newMargin())
+			if matchAspect(l2, e2, r) != "" {
+				sensitive = true
+			}
+			return sensitive
+		})
+		return true
+	})
+	return
+}
+
+func judgeC12AggOrder(c AggCase) *Fail {
+	n, nonIdentity := 0, 0
+	for _, req := range c.Reqs {
+		body := []byte(req)
+		v := viewReq(parseReqM(body))
+		snap, r, out, f := finalState(body)
+		if f != nil || !out.OK {
+			continue
+		}
+		w, _, wok := finalWeights(v, r, snap.critIds())
+		levels, _, endless := refLevelsV(v, true, snap, newMargin(), r)
+		consReq, cf := consideredInRequestOrder(v, snap)
+		if !wok || endless || cf != nil {
+			continue
+		}
+		same, _ := c12ListingOrder(snap, w, levels, consReq, r)
+		n++
+		if !same {
+			nonIdentity++
+		}
+	}
+	if n >= 40 && nonIdentity == 0 {
+		return failf("seeded-random-search-order", "%d aspect-elimination decisions with randomAlternativesOrdering=true whose outcome depends on the alternative order all equal the listing-order walk", n)
+	}
+	return nil
+}
+
 // c13ListingOrderMatches: does the listing-order walk (current choice first) reproduce the response?
 func c13ListingOrderMatches(req string) (bool, bool) {
 	body := []byte(req)
@@ -616,11 +680,17 @@ func judgeC13AggOrder(c AggCase) *Fail {
 func init() {
 	register("C12", "C12", 1, genC12, judgeC12)
 	register("C13", "C13", 1, genC13, judgeC13)
+	registerAggregate("C12", "C12agg-order", judgeC12AggOrder)
+	registerAggregate("C12", "C12agg-order-after-bias", judgeC12AggOrder)
 	registerAggregate("C13", "C13agg-order", judgeC13AggOrder)
 	registerAggregate("C13", "C13agg-order-after-bias", judgeC13AggOrder)
 }
 
-func TestC12(t *testing.T) { runRegistered(t, "C12") }
+func TestC12(t *testing.T) {
+	runRegistered(t, "C12")
+	runAggregate(t, "C12", "C12agg-order", 40, judgeC12AggOrder)
+	runAggregate(t, "C12", "C12agg-order-after-bias", 40, judgeC12AggOrder)
+}
 func TestC13(t *testing.T) {
 	runRegistered(t, "C13")
 	runAggregate(t, "C13", "C13agg-order", 40, judgeC13AggOrder)
